@@ -151,10 +151,13 @@ def splitter_candidates(case):
 @st.composite
 def cases(draw, tier, satisfied=False):
     p = EXPL.copy(max_depth=5) if tier == 'quick' else EXPL.copy(max_depth=6)
-    style = draw(st.sampled_from(['plain', 'simple-predicates', 'simple-predicates', 'two-branches']))
+    style = draw(st.sampled_from(['plain', 'simple-predicates', 'simple-predicates', 'two-branches', 'term-temporal']))
     if style != 'plain':
         # predicates "var cmp const": the depth budget goes into temporal / Boolean nesting
         p = p.copy(const_pred_only=True, bare_operand=False)
+    elif draw(st.booleans()):
+        # temporal operators below arithmetic and predicates (x * (always y) > 0): no polarity reaches them
+        p = p.copy(temporal_in_arith=True)
     nv = draw(st.sampled_from([1, 1, 2, 3]))
     start = draw(st.integers(0, len(F.VAR_POOL) - 1))
     vs = [F.VAR_POOL[(start + i) % len(F.VAR_POOL)] for i in range(nv)]
@@ -176,6 +179,19 @@ def cases(draw, tier, satisfied=False):
         f = ('bin', draw(st.sampled_from(['and', 'or', 'implies'])), branch(), branch())
         if draw(st.integers(0, 2)) == 0:
             f = ('un', 'not', f)
+    if style == 'term-temporal':
+        # a temporal operator inside an arithmetic term, or a negated / scaled term as a Boolean-level operand:
+        # x * (always y) > 0,  -(once y),  abs(x) - (eventually[0,2] y) <= 1
+        v1, v2 = ('var', draw(st.sampled_from(vs))), ('var', draw(st.sampled_from(vs)))
+        b = draw(st.integers(0, 3))
+        inner = draw(st.sampled_from([v2, ('pred', '>=', v2, ('const', 0.0)), ('un', 'abs', v2)]))
+        t = draw(st.sampled_from([('un', draw(st.sampled_from(['always', 'eventually', 'once', 'historically'])), inner),
+                                  ('tun', draw(st.sampled_from(['always', 'eventually', 'once', 'historically'])), draw(st.integers(0, b)), b, inner)]))
+        term = draw(st.sampled_from([('bin', '*', v1, t), ('bin', '-', v1, t), ('bin', '-', t, v1), ('un', 'neg', t), ('bin', '*', t, ('un', 'neg', v1)),
+                                     ('un', 'abs', t), ('bin', '+', t, v1), ('bin', '/', v1, ('bin', '+', ('un', 'abs', t), ('const', 1.0)))]))
+        g = term if draw(st.integers(0, 3)) == 0 else ('pred', draw(st.sampled_from(['>', '>=', '<', '<='])), term, ('const', draw(st.sampled_from([0.0, 1.0]))))
+        k = draw(st.integers(0, 3))
+        f = [g, ('un', 'not', g), ('bin', draw(st.sampled_from(['and', 'or', 'implies'])), g, f), ('un', draw(st.sampled_from(['always', 'eventually'])), g)][k]
     n = draw(F.trace_lengths(8))
     # values off the integer/half grid so that robustness 0 (no verdict) is rare
     vals = st.integers(-16, 15).map(lambda k: (k + 0.5) / 2.0)
@@ -184,6 +200,11 @@ def cases(draw, tier, satisfied=False):
     if not satisfied:
         for _ in range(10):
             alts.append({v: [draw(ALT_VALUES) for _ in range(n)] for v in vs})
+        # ... and re-assignments that draw from the values of the trace itself (of any variable): two sub-formulas can then
+        # reach exactly the same robustness, which is the only way to satisfy an iff (rho = -|a-b|) or to falsify a xor
+        pool = st.sampled_from(sorted(set(x for xs in tr.values() for x in xs)))
+        for _ in range(6):
+            alts.append({v: [draw(pool) for _ in range(n)] for v in vs})
     return {'formula': f, 'vars': vs, 'trace': tr, 'alts': alts, 'want_satisfied': satisfied, 'timing': draw(TIMINGS),
             'first_period_ms': draw(st.sampled_from([None, None, 50, 100, 250, 500, 1000]))}
 
